@@ -17,7 +17,7 @@ RULE = ('case = (direction, signer algorithm, hash, signature kind/type, option 
         'non-trivial = carries at least one optional subpacket, or a non-document subject, or a hash other than SHA-256; '
         'distinct = distinct case descriptors')
 ASSUMPTIONS = ['cryptography/OpenSSL public-key primitives', 'vf.ref.sig (validated on all fixture self-signatures)', 'gpg 2.2 when present (second acceptor, lenient on subpacket content)']
-MIN_COUNTERS = {'quick': {'pgpy_made_ref_verified': 150, 'pgpy_made_reimport_verified': 150, 'ref_made_pgpy_verified': 150, 'uid_certifications_verified_after_transport': 150},
+MIN_COUNTERS = {'quick': {'pgpy_made_ref_verified': 150, 'pgpy_made_reimport_verified': 150, 'ref_made_pgpy_verified': 150, 'uid_certifications_verified_after_transport': 150, 'zero_id_selfsigs_verified': 100, 'zero_id_data_signatures_verified': 40},
                 'thorough': {'pgpy_made_ref_verified': 800, 'ref_made_pgpy_verified': 800}}
 BUDGET = {'quick': (600, 1500), 'thorough': (1500, 3600)}
 TECHNIQUE = 'runtime monitoring: differential reference-model monitor (independent RFC 4880 5.2.4 verifier and signer) + GnuPG second oracle'
@@ -83,6 +83,11 @@ def cases(tier, seed):
             cs.append({'d': 'U', 'dir': 'B', 'u': j, 'raw': False, 'signer': sname, 'style': ['plain', 'len5', 'old-headers'][(j + n_) % 3]})
     for j in range(len(RAW_UIDS)):
         cs.append({'d': 'U', 'dir': 'B', 'u': j, 'raw': True, 'signer': us[j % len(us)], 'style': 'plain'})
+    # Z: identifiers that begin with a zero octet
+    for sname, sub in (('ed25519_0', 'ed25519_1'), ('rsa1024_0', 'ecdsa_p256_1'), ('ecdsa_p256_0', 'ed25519_2'), ('dsa1024_0', 'rsa1024_1')):
+        for wh in ('keyid', 'fpr', 'shortid'):
+            cs.append({'d': 'Z', 'dir': 'A', 'signer': sname, 'sub': sub, 'where': wh})
+            cs.append({'d': 'Z', 'dir': 'B', 'signer': sname, 'sub': sub, 'where': wh})
     # B: reference signer -> PGPy
     i = 0
     for s in signers:
@@ -221,11 +226,79 @@ def _U(ctx, d, pgpy):
     ctx.nontrivial(d)
 
 
+def _Z(ctx, d, pgpy):
+    """signers whose key id / fingerprint / short id begins with a zero octet (primary and signing subkey): issuer fields must survive every
+    transport and the signatures must keep verifying, in both directions"""
+    from pgpy.constants import KeyFlags
+    from .. import foreignkey
+    from ..oracle_selftest import verify_key_blob
+    tp = pool.created_with_zero(d['signer'], d['where'])
+    ts = pool.created_with_zero(d['sub'], d['where'])
+    pm, sbm = pool.mat(d['signer'], tp), pool.mat(d['sub'], ts)
+    where = {'signer': d['signer'], 'sub': d['sub'], 'zero_in': d['where'], 'primary_fpr': RK.fpr_of(pm).hex(), 'sub_fpr': RK.fpr_of(sbm).hex()}
+    if d['dir'] == 'A':
+        k = pool.pgpy_bare(d['signer'], created=tp)
+        k.add_uid(pgpy.PGPUID.new('Zero Id', email='z@example.org'), usage={KeyFlags.Certify, KeyFlags.Sign})
+        sk = pool.pgpy_bare(d['sub'], created=ts)
+        k.add_subkey(sk, usage={KeyFlags.Sign})
+        blob = bytes(k)
+    else:
+        blob, info = foreignkey.build(d['signer'], d['sub'], 'plain', created=None)
+        blob, info = foreignkey.build(d['signer'], d['sub'], ['plain', 'len5', 'issuer-hashed'][tp % 3], uid=b'Zero Id <z@example.org>', created=tp)
+        # foreignkey gives the subkey created+5: look for a subkey time of its own is not needed for direction B (the primary id is the zero one)
+    ctx.count('evaluations')
+    st = {}
+    verify_key_blob(blob, st, canonical=False, ignore_left16=False)
+    if st.get('rejected') or not st.get('verified'):
+        ctx.fail('reference-rejects-pgpy-signature' if d['dir'] == 'A' else 'harness', dict(where, what='self-signatures of the key', rejected=st.get('rejected')))
+        return
+    nself = st['verified']
+    for form in ('binary', 'armor', 'public', 'twice'):
+        kk = pgpy.PGPKey.from_blob(blob)[0]
+        if form == 'armor':
+            kk = pgpy.PGPKey.from_blob(str(kk))[0]
+        elif form == 'public':
+            kk = pgpy.PGPKey.from_blob(bytes(kk.pubkey))[0]
+        elif form == 'twice':
+            kk = pgpy.PGPKey.from_blob(bytes(pgpy.PGPKey.from_blob(bytes(kk))[0]))[0]
+        pubk = kk if kk.is_public else kk.pubkey
+        res, det = sigwork.pgpy_verify(pubk, pubk)
+        good = len(list(det.good_signatures)) if res == 'true' else 0
+        if res != 'true' or good < nself:
+            ctx.fail('pgpy-rejects-own-signature-after-reimport' if d['dir'] == 'A' else 'pgpy-rejects-reference-signature',
+                     dict(where, form=form, result=res, good=good, expected=nself, what='self-signatures and bindings of a key whose identifier begins with 00'))
+        else:
+            ctx.count('zero_id_selfsigs_verified', good)
+        if kk.is_public:
+            continue
+        # data signatures by the primary and by the signing subkey, parsed back before verification
+        for signer_obj, label, m in ((kk, 'primary', pm),) + (((list(kk.subkeys.values())[0], 'subkey', sbm),) if d['dir'] == 'A' else ()):
+            sig = signer_obj.sign(b'zero id document')
+            raw = bytes(sig)
+            ok, why, ps = sigwork.ref_check(raw, m, {'doc': b'zero id document'})
+            if not ok:
+                ctx.fail('reference-rejects-pgpy-signature', dict(where, form=form, by=label, why=why))
+            elif RS.issuer(ps) != RK.keyid_of(m) or (RS.issuer_fpr(ps) is not None and RS.issuer_fpr(ps) != RK.fpr_of(m)):
+                ctx.fail('issuer-field-differs-from-signing-key', dict(where, form=form, by=label, issuer=hx(RS.issuer(ps) or b'')))
+            s2 = pgpy.PGPSignature.from_blob(raw)
+            res, det = sigwork.pgpy_verify(pubk, b'zero id document', s2)
+            if res != 'true':
+                ctx.fail('pgpy-rejects-own-signature-after-reimport', dict(where, form=form, by=label, result=res, signer_field=s2.signer))
+            else:
+                ctx.count('pgpy_made_reimport_verified')
+                ctx.count('zero_id_data_signatures_verified')
+            if bytes(s2) != raw:
+                ctx.fail('signature-changes-in-transport', dict(where, form=form, by=label))
+    ctx.nontrivial(d)
+
+
 def run_case(ctx, d):
     import pgpy
     with warnings.catch_warnings():
         warnings.simplefilter('ignore')
-        if d['d'] == 'U':
+        if d['d'] == 'Z':
+            _Z(ctx, d, pgpy)
+        elif d['d'] == 'U':
             _U(ctx, d, pgpy)
         elif d['d'] == 'A':
             _A(ctx, d, pgpy)
